@@ -141,7 +141,7 @@ MayUnaffine(call, oldb) ==
 AffChangeOK(call, oldb, newaff, created, bk) ==
     CASE oldb.aff = newaff -> TRUE
       [] oldb.aff = "" -> /\ created                                            \* only a create gives a block an owner
-                          /\ call.op = "assign" /\ newaff = HostAff(call.host)
+                          /\ call.op \in {"assign", "claim"} /\ newaff = HostAff(call.host)
                           /\ \E k \in AffKeys : st[k].val.owner = newaff /\ st[k].val.bk = bk   \* claim exists first
       [] newaff = "" -> MayUnaffine(call, oldb)
       [] OTHER -> FALSE
@@ -152,22 +152,22 @@ ValueRead(c, k, rev) == (CHOOSE r \in reads[c] : r.key = k /\ r.rev = rev).val
 BlockWriteOK(e, call) ==
     LET created == e.op = "create"
         deleted == e.op = "delete"
-        old == IF created THEN AllFree(e.val) ELSE ValueRead(e.c, e.key, e.rev)
-        new == IF deleted THEN AllFree(old) ELSE e.val
-    IN /\ ~created => ReadAt(e.c, e.key, e.rev)                                 \* C19: CAS from what it read
-       /\ NOrds(new) = NOrds(old) /\ new.cidr = old.cidr
-       /\ \A o \in Ords(new) : Entitled(call, e.key, new, o, Ord(old, o), Ord(new, o), e.now)
-       /\ AffChangeOK(call, old, new.aff, created, e.key)
-       /\ FifoOK(call, e.key, old, new)
+    IN IF ~created /\ ~ReadAt(e.c, e.key, e.rev) THEN FALSE                     \* C19: CAS from what it read
+       ELSE LET old == IF created THEN AllFree(e.val) ELSE ValueRead(e.c, e.key, e.rev)
+                new == IF deleted THEN AllFree(old) ELSE e.val
+            IN /\ NOrds(new) = NOrds(old) /\ new.cidr = old.cidr
+               /\ \A o \in Ords(new) : Entitled(call, e.key, new, o, Ord(old, o), Ord(new, o), e.now)
+               /\ AffChangeOK(call, old, new.aff, created, e.key)
+               /\ FifoOK(call, e.key, old, new)
 
 AffWriteOK(e, call) ==
     /\ e.op \in {"update", "delete"} => ReadAt(e.c, e.key, e.rev)
-    /\ e.op = "create" => /\ call.op = "assign" /\ e.val.owner = HostAff(call.host)
+    /\ e.op = "create" => /\ call.op \in {"assign", "claim"} /\ e.val.owner = HostAff(call.host)
                           /\ e.val.state = "pending"                            \* C22: two-phase claim
     /\ (e.op = "update" /\ e.val.state = "confirmed") =>                        \* C22: confirm only what the block says
           /\ e.val.bk \in BlockKeys /\ st[e.val.bk].val.aff = e.val.owner
           \* C20 (sequential histories): the host stays within its block cap
-          /\ (env.mode = "seq" /\ call.op = "assign") =>
+          /\ (env.mode = "seq" /\ call.op = "assign" /\ e.key \in call.tried) =>
                 Cardinality({ k \in AffKeys \cup {e.key} :
                                  LET v == IF k = e.key THEN e.val ELSE st[k].val IN
                                  /\ v.owner = e.val.owner /\ (v.state = "confirmed" \/ k = e.key)
@@ -184,7 +184,7 @@ KvOK(e) ==
          THEN e.err = e.inj                                                     \* injected fault: store untouched
          ELSE /\ IF e.op = "list"
                    THEN ListConforms(st, e.items,
-                            LAMBDA k, x : x.val.kind = e.kind /\ (e.kind = "aff" => x.val.owner = e.owner))
+                            LAMBDA k, x : x.val.kind = e.kind /\ ((e.kind = "aff" /\ e.owner # "") => x.val.owner = e.owner))
                    ELSE Conforms(st, last, e)
               /\ (IsWrite(e) /\ e.err = "") =>
                     CASE e.kind = "block" -> BlockWriteOK(e, calls[e.c])
@@ -203,8 +203,9 @@ KvApply(e) ==
         isb == wr /\ e.kind = "block"
         oldb == IF e.op = "create" THEN AllFree(e.val) ELSE st[e.key].val
         newb == IF e.op = "delete" THEN AllFree(oldb) ELSE e.val
-        took == IF isb THEN { <<e.key, o>> : o \in { x \in Ords(newb) : Ord(newb, x).s = "a" /\ Ord(oldb, x) # Ord(newb, x) } } ELSE {}
-        gave == IF isb THEN { <<e.key, o>> : o \in { x \in Ords(newb) : Ord(oldb, x).s = "a" /\ Ord(newb, x).s # "a" } } ELSE {}
+        took == IF isb THEN { [a |-> AddrOf(newb, o), n |-> newb.cidr.n] : o \in { x \in Ords(newb) : Ord(newb, x).s = "a" /\ Ord(oldb, x) # Ord(newb, x) } } ELSE {}
+        gave == IF isb THEN { AddrOf(newb, o) : o \in { x \in Ords(newb) : Ord(oldb, x).s = "a" /\ Ord(newb, x).s # "a" } } ELSE {}
+        claim == IF e.inj = "" /\ e.op = "create" /\ e.kind = "aff" THEN {e.key} ELSE {}
         allocNow == AllocAddrs(st2)
         got == IF ~ok THEN {}
                ELSE IF e.op = "get" THEN {[key |-> e.key, rev |-> e.orev, val |-> e.val]}
@@ -219,7 +220,7 @@ KvApply(e) ==
     /\ calls' = [c \in DOMAIN calls |->
                     LET x == calls[c] IN
                     IF c = e.c
-                      THEN [x EXCEPT !.wrote = @ \cup took, !.freed = @ \cup gave,
+                      THEN [x EXCEPT !.wrote = @ \cup took, !.freed = @ \cup gave, !.tried = @ \cup claim,
                                      !.seenUn = @ \cup (IF wr /\ x.op = "release" THEN { x.opts[i].ip : i \in DOMAIN x.opts } \ allocNow ELSE {})]
                       ELSE [x EXCEPT !.excl = @ /\ ~wr,
                                      !.seenUn = @ \cup (IF wr /\ x.op = "release" THEN { x.opts[i].ip : i \in DOMAIN x.opts } \ allocNow ELSE {})]]
@@ -232,14 +233,13 @@ CallOK(e) == e.c \notin DOMAIN calls
 CallApply(e) ==
     LET allocNow == AllocAddrs(st)
         un == IF e.op = "release" THEN { e.opts[i].ip : i \in DOMAIN e.opts } \ allocNow ELSE {}
-        rec == [ x \in DOMAIN e \cup {"wrote", "freed", "seenUn", "excl", "unAtStart"} |->
-                 CASE x = "wrote" -> {} [] x = "freed" -> {} [] x = "seenUn" -> un
+        rec == [ x \in DOMAIN e \cup {"wrote", "freed", "tried", "seenUn", "excl", "unAtStart"} |->
+                 CASE x = "wrote" -> {} [] x = "freed" -> {} [] x = "tried" -> {} [] x = "seenUn" -> un
                    [] x = "excl" -> DOMAIN calls = {} [] x = "unAtStart" -> un [] OTHER -> e[x] ]
     IN /\ calls' = Put([c \in DOMAIN calls |-> [calls[c] EXCEPT !.excl = FALSE]], e.c, rec)
        /\ reads' = Put(reads, e.c, {})
        /\ UNCHANGED <<env, st, last, ghost, caps, now, taint>>
 
-AddrsOfPairs(ps) == { AddrOf(st[p[1]].val, p[2]) : p \in { q \in ps : q[1] \in BlockKeys } }
 HandleCount(h, bk) ==
     LET hk == { k \in HandleKeys : st[k].val.id = h } IN
     IF hk = {} THEN 0
@@ -249,31 +249,32 @@ HandleCount(h, bk) ==
 HandleIds == { st[k].val.id : k \in HandleKeys } \cup UNION { { Ord(st[k].val, o).h : o \in Allocated(st[k].val) } : k \in BlockKeys }
 HandleBlocks == BlockKeys \cup UNION { { st[k].val.blocks[i].b : i \in DOMAIN st[k].val.blocks } : k \in HandleKeys }
 Owned(h, bk) == IF bk \in BlockKeys THEN Cardinality(OwnedBy(st[bk].val, h)) ELSE 0
-HandleMismatches == { <<h, bk, HandleCount(h, bk), Owned(h, bk)>> : h \in HandleIds, bk \in HandleBlocks } \
-                    { <<h, bk, n, n>> : h \in HandleIds, bk \in HandleBlocks, n \in 0..300 }
+HandleMismatches ==
+    { x \in { <<h, bk, HandleCount(h, bk), Owned(h, bk)>> : h \in HandleIds, bk \in HandleBlocks } : x[3] # x[4] }
 
 RetOK(e) ==
     /\ e.c \in DOMAIN calls /\ calls[e.c].op = e.op
     /\ LET call == calls[e.c] IN
        CASE e.op = "assign" ->
-               \* C19 ReturnedIsRecorded: each returned address was written by this call for its handle;
-               \* C20: and comes back with its block's prefix length
+               \* C19 ReturnedIsRecorded: each returned address was written by this call for its handle
+               \* (and, when nobody interfered, is still recorded for it at return time);
+               \* C20: it comes back with its block's prefix length
                \A i \in DOMAIN e.ips :
-                  \E p \in call.wrote :
-                     /\ p[1] \in DOMAIN ghost
-                     /\ LET cidr == IF p[1] \in BlockKeys THEN st[p[1]].val.cidr ELSE e.ips[i] IN
-                        /\ NthAddr(Canon(cidr), p[2]) = e.ips[i].a
-                        /\ e.ips[i].n = cidr.n
+                  /\ \E w \in call.wrote : w.a = e.ips[i].a /\ w.n = e.ips[i].n
+                  /\ call.excl => \E k \in BlockKeys : \E o \in OwnedBy(st[k].val, call.h) : AddrOf(st[k].val, o) = e.ips[i].a
          [] e.op = "release" ->
                \* C21: an address is only reported released if it was seen unallocated during the call
                \* or this call freed it (a stale / foreign request can do neither)
                /\ \A i \in DOMAIN e.released :
                      \/ e.released[i] \in call.seenUn
-                     \/ e.released[i] \in AddrsOfPairs(call.freed)
+                     \/ e.released[i] \in call.freed
                /\ \A i \in DOMAIN e.unalloc : e.unalloc[i] \in call.seenUn
                \* C21: releasing what is not allocated is a harmless no-op
                /\ (call.excl /\ { call.opts[i].ip : i \in DOMAIN call.opts } \subseteq call.unAtStart) =>
-                     (e.err = "" /\ call.freed = {} /\ call.wrote = {})
+                     /\ call.freed = {} /\ call.wrote = {}
+                     \* (a request carrying a sequence number may answer "bad sequence number": the stamp of a
+                     \*  released address is no longer the captured one - reported, still harmless)
+                     /\ (\A i \in DOMAIN call.opts : call.opts[i].cap = 0) => e.err = ""
          [] e.op = "relh" ->
                \* C21: an undisturbed successful release-by-handle leaves the handle no address
                (call.excl /\ e.err = "") => \A k \in BlockKeys : OwnedBy(st[k].val, call.h) = {}
@@ -284,7 +285,7 @@ RetApply(e) ==
         mism == IF DOMAIN calls2 = {} /\ ~taint THEN HandleMismatches ELSE {}
     IN /\ calls' = calls2
        \* C19 HandleAgreement at crash-free quiescent points: reported on the soft channel (the trace goes on)
-       /\ mism = {} \/ PrintT(<<"SOFT", "handle-agreement", e.t, mism>>)
+       /\ IF mism = {} THEN TRUE ELSE PrintT(<<"SOFT", "handle-agreement", e.t, mism>>)
        /\ UNCHANGED <<env, st, last, ghost, reads, caps, now, taint>>
 
 \* a client dies: its call never returns (no further events from it)
